@@ -15,7 +15,8 @@ ExpectedOns(bag) == BagPlus([x \in {60 + t : t \in DOMAIN bag} |-> bag[x - 60]],
 
 AttrListOk ==
   /\ R.ok /\ Len(R.list) > 0
-  /\ R.list = R.gen                                   \* the embedded list is what `gen attr -d 20` generates
+  /\ Len(R.list) = Len(R.gen)                         \* the embedded list is what `gen attr -d 20` generates
+  /\ {<<R.list[i].name, R.list[i].degree>> : i \in 1..Len(R.list)} = {<<R.gen[i].name, R.gen[i].degree>> : i \in 1..Len(R.gen)}
   /\ NoDup([i \in 1..Len(R.list) |-> R.list[i].name])
   /\ \A i \in 1..Len(R.list) :                        \* every name denotes the interval its English name says
         LET e == EnglishInterval(R.list[i].name)  p == ParseInterval(R.list[i].degree) IN
